@@ -1013,6 +1013,9 @@ def start_type(ctx, inv):
         if inv.flavor == 'res' and inner == Opt(TOK) and r.random() < 0.5:
             inner = Res(TOK)
         return base(inner)
+    if ctx.chance(ctx.p.get('copystart', 0.03)):
+        # a Copy-valued branch: what a step hands to the next one can then be captured by reference where a move was meant
+        return ctx.pick_w([(2, USIZE), (1, Opt(USIZE))])
     return ctx.pick_w([
         (3, Opt(TOK)), (3, Res(TOK)), (3, Vec(TOK)), (1, TOK), (1, Opt(Opt(TOK))), (1, Vec(Opt(TOK))), (1, Vec(Res(TOK))),
         (1, Vec(Vec(TOK))), (1, Vec(Pair(TOK, TOK))), (0.7, Opt(Pair(TOK, TOK))), (0.7, Opt(Vec(TOK))), (0.5, Res(Vec(TOK))),
@@ -2307,6 +2310,79 @@ def slice_programs(slice_name, tier, master_seed, base_id):
                     j = text.find('~')
                     return j >= 0 and ('{ w::cap(' in text[j:] or '{ w::snap' in text[j:])
                 add(p, fam, 'sk-single-%s' % (dp,), require=req1)
+    if slice_name == 'steps':
+        # Copy-valued branches that go on into a joined later step (non-try families: the error type of the try families is not Copy)
+        for fam in [f for f in fams if not f[1]]:
+            for dp in [(2, 2), (3, 2, 3)]:
+                p = dict(prof)
+                p['depth_profile'] = (lambda d: (lambda rng, nb: list(d)))(dp)
+                p['copystart'] = 1.0
+                p['nest'] = 0.0
+                p['nameread'] = 0.0
+                add(p, fam, 'sk-copystart-%s' % (dp,), require='usize>')
+    if slice_name == 'try':
+        # in a LATER step: a success-preserving wrapper (`|> >>> .. <<<`) closed explicitly, then a failable `=>` on the outer value
+        # (whether a branch can fail in a step must not be judged by what stands in front of the wrapper only)
+        import re as _re7
+        for fam in [f for f in fams if f[0] == 'sync']:
+            for dp in [(2, 2), (3, 2), (2, 3, 2)]:
+                p = dict(prof)
+                p['depth_profile'] = (lambda d: (lambda rng, nb: list(d)))(dp)
+                p['ops'] = {o: (4.0 if o in ('map', 'and_then') else 0.4) for o in OP_NAMES}
+                p['wrappers'] = 2.0
+                p['captures'] = 0.0
+                p['nest'] = 0.0
+                p['acts'] = (2, 4)
+
+                def reqw(text):
+                    for part in split_top(text):
+                        steps_txt = part.split(' ~')
+                        for st_txt in steps_txt[1:]:
+                            m = _re7.search(r'^(\|>|\?\?|<=|!>) >>> .* <<< => (?!>>>)', st_txt.strip())
+                            if m and 'w::at_' in st_txt.strip()[m.end():m.end() + 40]:
+                                return True
+                    return False
+                add(p, fam, 'sk-wrap-then-failable-%s' % (dp,), require=reqw)
+    if slice_name in ('steps', 'try'):
+        # a MIDDLE step that consists of one deferred recovery operator only (`~<= f`, `~<| x`, `~!> f`: on the Ok / Some value a
+        # step of a try macro starts from, the callback cannot fire) and is followed by another step: it is still a step, with
+        # its barrier and its abort check
+        OPS_TXT = [' |> ', ' => ', ' -> ', ' <| ', ' <= ', ' !> ', ' ?> ', ' ?? ', ' .. ', ' >. ', ' ^^> ', '>>>', ' >@> ', ' ?|> ', ' |n> ']
+        for fam in [f for f in fams if f[1]]:
+            for (opname, optxt) in [('or_else', '~<= '), ('or', '~<| '), ('map_err', '~!> ')]:
+                if fam[0] == 'async' and opname == 'or':
+                    continue
+                for dp in [(3, 2), (2, 3, 3), (3, 3)]:
+                    # (3, 3): the operand written as a closure literal
+                    want_closure = dp == (3, 3)
+                    if want_closure and opname == 'or':
+                        continue
+                    p = dict(prof)
+                    p['depth_profile'] = (lambda d: (lambda rng, nb: list(d)))(dp)
+                    # (and_then next to it: the sibling branches need failable positions in the same steps)
+                    p['ops'] = {o: (4.0 if o == opname else 4.0 if o == 'and_then' else 0.3) for o in OP_NAMES}
+                    p['acts'] = (1, 1)
+                    p['captures'] = 0.0
+                    p['mk'] = 0.0
+                    p['exotic'] = 0.0
+                    p['wrappers'] = 0.0
+                    p['nest'] = 0.0
+                    p['closures'] = 3.0 if want_closure else 0.0
+                    p['turbofish'] = 0.0
+                    p['guard_noise'] = 0.0
+
+                    def reqr(text, optxt=optxt, want_closure=want_closure):
+                        for part in split_top(text):
+                            k = part.find(optxt)
+                            while k >= 0:
+                                rest = part[k + len(optxt):]
+                                j = rest.find(' ~')
+                                if j > 0 and not any(o in rest[:j] for o in OPS_TXT) and '{' not in rest[:j].split('|')[0]:
+                                    if not want_closure or rest.startswith('|') or rest.startswith('move |'):
+                                        return True
+                                k = part.find(optxt, k + 1)
+                        return False
+                    add(p, fam, 'sk-lonerecovery-%s-%s' % (opname, dp), require=reqr)
     if slice_name == 'steps':
         # an ORDINARY (non-block) operand of another branch reads the `let` name of a Copy-valued branch 0 (sync families)
         for fam in [f for f in fams if f[0] == 'sync']:
